@@ -406,3 +406,25 @@ PROPS = {
         ],
     },
 }
+
+# ---- additions made when the checks were strengthened after the seeded-change evaluation (DESIGN.md section 7)
+_EXTRA = {
+    "C01": "One E-T scenario in three runs the subject as a thread-local actor.",
+    "C02": "Wrong-typed sends are tried through ActorCell::send_message::<Other> and through send_message / cast / call on a wrongly typed ActorRef built from the cell.",
+    "C03": "The E-T run shares C01's scenarios, so one subject in three is a thread-local actor.",
+    "C05": ("Added monitors: an observer flags any actor that lists a new child (or gets a new supervisor) after it was seen Draining/Stopping before the previous snapshot; "
+            "a lock-ordered tap takes the tree lock once when an actor reaches CLEANUP_AFTER_STOPPING / DRAIN_AFTER_STATUS and flags any later LINK_IN_LOCK for it "
+            "(link decides under that lock, so it must have seen the status); one scenario in three adds an actor that links a child in pre_start and then fails to start (the child must die)."),
+    "C06": "Live-actor E-T scenarios have a supervisor and 1-2 blocking waiters (own runtime) that snapshot the world and query the supervisor the instant they wake; the detached-cell scenario also runs under Miri.",
+    "C07": "A third of the remote-cell senders deliver through ActorCell::send_serialized; the detached-mailbox scenario also runs under Miri.",
+    "C08": "Thread-local: 12 extra cases per shard cancel the caller after 1-3 polls while its request still sits behind a provably held spawner thread; nothing of the abandoned actor may run or remain.",
+    "C09": "Callers go through the call method and through call! / call_t! in closure and argument form.",
+    "C11": "One E-T scenario in four is 'wide': the sole member of 20-160 groups exits while 1-3 other threads join (and partly leave) other actors in the same groups; indexes, queries and each joiner's own view must agree afterwards.",
+    "C12": "One scenario in five is a clock-jump scenario: 1-3 interval timers, 1-3 jumps of tokio::time::advance over 2-9 periods; overdue ticks arrive at the end of the jump, every later tick exactly on created + k*period.",
+    "C13": "After 20 virtual seconds without stimulus and with a non-empty pool nothing accepted may still be waiting (clause 'starved': a job whose only fate was the shutdown discard).",
+    "C15": "After a limit change the oldest-first clause is evaluated for Queuer routing once a job has provably been enqueued under the new limit.",
+    "C16": "A quarter of the subscribers are spawn_instant actors with a slow pre_start, subscribed while still starting.",
+    "C19": "Job envelopes are round-tripped with keys of encoded length 0-8 bytes ((), strings, vectors, u64).",
+}
+for _k, _t in _EXTRA.items():
+    PROPS[_k]["level_note"] = (PROPS[_k].get("level_note", "") + " " + _t).strip()
